@@ -125,19 +125,34 @@ type Event struct {
 	Srt   bool         `json:"srt"`  // all listings sorted and duplicate free
 	Mt    string       `json:"mt"`   // digest of every modification time of the base (wrapper runs only)
 	Cons  []string     `json:"cons"` // primitives consulted through a FailFS wrapper during the call, in order
+	Leak  bool         `json:"leak"` // a path returned or embedded in an error reveals the base path (BasePathFS)
 }
 
 // Edge is one transition of the bounded state graph emitted by TLC.
+// Alt is an outcome an open deviation admits instead of the strict one.
+type Alt struct {
+	Impl string       `json:"impl"`
+	Kf   string       `json:"kf"`
+	Res  Res          `json:"res"`
+	Post []Entry      `json:"post"`
+	Cwd  Path         `json:"cwd"`
+	Hs   []HandleView `json:"hs"`
+}
+
 type Edge struct {
-	Cons []string `json:"cons"` // primitives the specification expects the call to consult (FailFS)
-	Wrap string   `json:"wrap"` // wrapper the call goes through ("" = none)
-	Wh   []Call   `json:"wh"`   // calls already made through the wrapper
-	Hist []Call   `json:"hist"`
-	Call Call     `json:"call"`
-	Res  Res      `json:"res"`
-	Pre  []Entry  `json:"pre"`
-	Post []Entry  `json:"post"`
-	Cwd  Path     `json:"cwd"`
+	T    string       `json:"t"`   // "" = transition, "alt" = an alternative outcome of the transition with the same key
+	Alt  *Alt         `json:"alt"` // the alternative (t == "alt")
+	Alts []Alt        `json:"alts"`
+	Hs   []HandleView `json:"hs"`
+	Cons []string     `json:"cons"` // primitives the specification expects the call to consult (FailFS)
+	Wrap string       `json:"wrap"` // wrapper the call goes through ("" = none)
+	Wh   []Call       `json:"wh"`   // calls already made through the wrapper
+	Hist []Call       `json:"hist"`
+	Call Call         `json:"call"`
+	Res  Res          `json:"res"`
+	Pre  []Entry      `json:"pre"`
+	Post []Entry      `json:"post"`
+	Cwd  Path         `json:"cwd"`
 }
 
 // DecodeTLC decodes a line written by TLC's CSVWrite("%1$s", <<ToJson(rec)>>):
